@@ -290,6 +290,14 @@ def check_multiline(res):
                                       {'src': v, 'width': w, 'variant': 'multiline', 'base': src})
 
 
+def shortif_else(prog):
+    """The program has a line-scoped if with an else part."""
+    for (f, l) in prog.scopes:
+        if prog.toks[f].cls == 'if' and any(t.cls == 'else' for t in prog.toks[f:l + 1]):
+            return True
+    return False
+
+
 def shards(tier, seed):
     n = 48 if tier == 'quick' else 128
     items = []
@@ -314,7 +322,7 @@ def run_shard(item):
             continue
         if fam == 'stat' and len(prog.toks) > (9 if tier == 'quick' else 14):
             continue
-        if tier == 'quick' and len(prog.toks) > 13:
+        if tier == 'quick' and len(prog.toks) > 13 and not (shortif_else(prog) and len(prog.toks) <= 20):
             continue
         hk = h64(b' '.join(prog.spellings()))
         if hk in seen:
